@@ -211,3 +211,8 @@ package driver
 // field as it was (so `?f=` cannot clear or fail a setting).
 //@ func config.applyURL nosafety
 //@   callsite config.set nonempty_only: $arg0 == cfg && $arg2 != ""
+
+// ---- C06 (strengthened after seeded change tag-key-split-on-every-equals): a key-restricted tag filter is split at the
+// FIRST '=' only — everything after it, further '=' signs included, is the value expression.
+//@ func compileTagFilter nosafety
+//@   callsite SplitN first_equals_only: $arg0 == value && $arg1 == "=" && $arg2 == 2
